@@ -765,7 +765,8 @@ class Device(object):
             return
         if p.cmd == W.A_WRTE:
             s.read_payloads.append(p.data)
-            s.read_unacked += 1
+            if not s.host_closed:
+                s.read_unacked += 1       # (a WRITE that crossed the host's CLOSE is owed no acknowledgement)
             if p.kind == 'fail' and not any(q.kind == 'fail' for q in s.outq):
                 self.fail_fully_read = True
         elif p.cmd == W.A_OKAY:
